@@ -75,6 +75,10 @@ inductive Op where
   | overwrite (f k : Nat) (rows : List Row)
   | delete (p : Pred)
   | restore (v : Nat)
+  /-- a Restore transaction built on a handle at version `hv` (its read version) and committed later, possibly after
+      other writers published newer versions: `CommitBuilder::new(handle@hv).execute(Transaction::new(hv, Restore{v}))`.
+      `Dataset::restore()` is the case `hv` = latest. -/
+  | restoreAt (hv v : Nat)
   deriving DecidableEq, Repr
 
 inductive Res where
@@ -228,6 +232,17 @@ def stepG (keep : Bool) (s : Option Hist) (op : Op) : Option Hist × Res :=
     match h.lookup v with
     | none => (some h, .err "not_found")
     | some old => (some (h.push (restored keep h.latest old)), .ok)
+  | some h, .restoreAt hv v =>
+    -- commit_transaction: the handle's version must exist (`checkout_version(read_version)`); the loop then loads the
+    -- LATEST dataset (`load_and_sort_new_transactions`; Restore is compatible with every concurrent operation,
+    -- `check_restore_txn`) and builds the manifest inside the loop: version and high-water marks come from the latest
+    -- manifest at commit time, schema and fragments from the target version
+    match h.lookup hv with
+    | none => (some h, .err "not_found")
+    | some _ =>
+      match h.lookup v with
+      | none => (some h, .err "not_found")
+      | some old => (some (h.push (restored keep h.latest old)), .ok)
 
 /-- the code as it is now -/
 def step (s : Option Hist) (op : Op) : Option Hist × Res := stepG true s op
@@ -235,6 +250,23 @@ def step (s : Option Hist) (op : Op) : Option Hist × Res := stepG true s op
 def runG (keep : Bool) (s : Option Hist) : List Op → Option Hist
   | [] => s
   | op :: ops => runG keep (stepG keep s op).1 ops
+
+/-- NOT the code: a commit loop that builds the Restore manifest once, before loading the concurrent transactions, takes
+    the marks from the manifest at the transaction's READ version.  Kept only to state `stale_marks_counterexample`. -/
+def stepStaleMarks (s : Option Hist) (op : Op) : Option Hist × Res :=
+  match s, op with
+  | some h, .restoreAt hv v =>
+    match h.lookup hv with
+    | none => (some h, .err "not_found")
+    | some hm =>
+      match h.lookup v with
+      | none => (some h, .err "not_found")
+      | some old => (some (h.push { restored true hm old with version := h.latest.version + 1 }), .ok)
+  | s, op => stepG true s op
+
+def runStaleMarks (s : Option Hist) : List Op → Option Hist
+  | [] => s
+  | op :: ops => runStaleMarks (stepStaleMarks s op).1 ops
 
 /-- a history: any list of operations from "no table" -/
 def run (ops : List Op) : Option Hist := runG true none ops
